@@ -10,6 +10,7 @@
 #include <setjmp.h>
 #include <stddef.h>
 #include <pthread.h>
+#include "crypt-port.h"
 #include "crypt.h"
 
 /* ---------- abort / assert interception ---------- */
@@ -81,7 +82,7 @@ static const char *errname (int e)
   }
 }
 
-#define MAXTOK 16
+#define MAXTOK 64
 static int split (char *line, char **tok)
 {
   int n = 0;
